@@ -85,10 +85,12 @@ def fold_oracle(X, delays, tsamp, period, accel, nbins, nints, nbands):
     sums = np.zeros((nints, nbands, nbins), dtype=np.float64)
     cnts = np.zeros((nints, nbands, nbins), dtype=np.int64)
     Xf = X.astype(np.float64)
+    size = nints * nbands * nbins
     for c in range(nchans):
         vals = Xf[int(delays[c]) : int(delays[c]) + n, c]
-        np.add.at(sums, (sub, band[c], pbin), vals)
-        np.add.at(cnts, (sub, band[c], pbin), 1)
+        flat = (np.asarray(sub, dtype=np.int64) * nbands + np.asarray(band[c], dtype=np.int64)) * nbins + np.asarray(pbin, dtype=np.int64)
+        sums += np.bincount(flat, weights=vals, minlength=size).reshape(nints, nbands, nbins)
+        cnts += np.bincount(flat, minlength=size).reshape(nints, nbands, nbins)
     return sums, cnts, amb
 
 
@@ -366,10 +368,24 @@ def check_train(case, ctx):
     return Info(case["gulp"] < N, ("train",))
 
 
+def enum_long(tier):
+    """Observation-length folds (1e6 samples and more).  Phases are kept exact (dyadic tsamp, period a power-of-two
+    multiple of it, no acceleration) so that no sample is ambiguous and the cube must match cell for cell; sample values
+    0..7 keep the float32 cell sums exact."""
+    base = [(1_000_000, 1, 32.0, 16, 0, 300_000), (2_097_152, 2, 64.0, 16, 40, 1 << 20), (1_300_001, 2, 16.0, 8, 3, 99_991)]
+    if tier == "thorough":
+        base += [(4_194_304, 1, 128.0, 16, 0, 4_194_304 + 5), (3_000_001, 2, 32.0, 8, 1000, 500_000)]
+    for i, (N, nch, ratio, nbins, md, gulp) in enumerate(base):
+        yield {"layout": {"nbits": 8, "nchans": nch, "split": [N] if i % 2 == 0 else [N // 3, N - N // 3], "data_seed": 40 + i, "data_kind": "small"},
+               "nbins": nbins, "nints": 4, "nbands": 1 if i % 2 == 0 else nch, "ratio": ratio, "accel": 0.0, "tsamp": 2.0**-10,
+               "md_target": md, "gulp": gulp, "fch1": 1400.0, "foff": -10.0, "again": i == 0}
+
+
 def subchecks(tier):
     return [
         SubCheck("filterbank", check_fb, strategy=lambda t: strat_fb(t),
                  examples={"quick": 600, "thorough": 40000}, shards={"quick": 6, "thorough": 16}),
+        SubCheck("long_folds", check_fb, enumerate=enum_long, shards={"quick": 3, "thorough": 5}, budget_s={"quick": 280, "thorough": 1500}),
         SubCheck("kernel", check_kernel, strategy=lambda t: strat_fb(t),
                  examples={"quick": 600, "thorough": 40000}, shards={"quick": 3, "thorough": 8}),
         SubCheck("timeseries", check_ts, strategy=lambda t: strat_ts(),
